@@ -401,6 +401,36 @@ def default_path_rule(ctx, repo):
     ctx.floor("history classes with a save/load pair", n, 3)
 
 
+def optional_key_rule(ctx, repo):
+    """C13.flow (optional-key clause): a loader does not *require* a stored option the constructor treats as optional.  A key that __init__ takes with
+    `pop(k, default)` / `get(k)` may be absent from the saved constructor arguments; a loader that does `pop(k)` or `[k]` on them raises KeyError for every
+    object that was built without it -- it saves, and cannot be loaded."""
+    n = 0
+    for mod_ in ("aspire.flows.torch.flows", "aspire.flows.jax.flows", "aspire.flows.base"):
+        if mod_ not in repo.modules:
+            continue
+        for c in repo.modules[mod_].classes.values():
+            ld = c.resolve("load")
+            if ld is None:
+                continue
+            opt = {}
+            for m in [x for k_ in c.mro() for x in k_.methods.values()]:
+                for n_ in walk_no_nested(m.node):
+                    if isinstance(n_, ast.Call) and isinstance(n_.func, ast.Attribute) and n_.func.attr in ("pop", "get") and n_.args and isinstance(n_.args[0], ast.Constant) \
+                            and isinstance(n_.args[0].value, str) and (len(n_.args) > 1 or n_.func.attr == "get") and m.name == "__init__":
+                        opt[n_.args[0].value] = (m, n_)
+            req = []
+            for n_ in walk_no_nested(ld.node):
+                if isinstance(n_, ast.Call) and isinstance(n_.func, ast.Attribute) and n_.func.attr == "pop" and len(n_.args) == 1 and not n_.keywords \
+                        and isinstance(n_.args[0], ast.Constant) and n_.args[0].value in opt:
+                    req.append((n_, n_.args[0].value))
+            n += 1
+            ctx.decide(not req, "C13.flow", c.ident, loc_of(ld, req[0][0]) if req else loc_of(ld), f"{c.name}.load requires no stored option that the constructor treats as optional",
+                       (f"{c.name}.load does `{ast.unparse(req[0][0])}` (no default) although __init__ takes `{req[0][1]}` as optional (line {opt[req[0][1]][1].lineno}): a flow built without it "
+                        "is saved without it, and loading that file raises KeyError") if req else "", disc="optional-key")
+    ctx.floor("flow classes with a loader (optional-key clause)", n, 2)
+
+
 def saved_dtype_rule(ctx, repo):
     """C13.flow (dtype clause): the precision written with a flow is the precision the flow *has* (self.dtype), also when it was built with dtype=None:
     a None in the file is resolved by the loading process from its own default dtype, so the reloaded flow's precision is not a property of the file."""
@@ -488,6 +518,7 @@ def run(ctx):
     um = repo.module(U)
     dataset_options_rule(ctx, repo)
     saved_dtype_rule(ctx, repo)
+    optional_key_rule(ctx, repo)
     default_path_rule(ctx, repo)
     empty_sequence_rule(ctx, repo)
     # ---- what a file holds under /aspire_config is one configuration: the writer removes the group before it writes (the layout is flattened,
@@ -949,6 +980,10 @@ MUTANTS += [
 MUTANTS += [
     M("encoder drops the evidence fields before writing", "src/aspire/samples.py", "dictionary[\"xp\"] = self.xp.__name__\n        return dictionary", "dictionary[\"xp\"] = self.xp.__name__\n        for name in (\"log_w\", \"log_evidence\"):\n            dictionary.pop(name, None)\n        return dictionary", "C13.samples"),
     M("save() defaults to the flat layout", "src/aspire/samples.py", "def save(self, h5_file, path=\"samples\", flat=False):", "def save(self, h5_file, path=\"samples\", flat=True):", "C13.samples"),
+]
+
+MUTANTS += [
+    M("jax loader requires the optional device argument", "src/aspire/flows/jax/flows.py", "kwargs.pop(\"device\", None)\n        flow_template", "kwargs.pop(\"device\")\n        flow_template", "C13.flow"),
 ]
 
 NEUTRALS = [
